@@ -382,6 +382,110 @@ async def _get_render_named(env: Any, name: str) -> str:
     return await t.render_async()
 
 
+# ------------------------------------------------------------------ compositions: chains inside chains, blocks inside tags
+#
+# A level is a two- or three-template chain  c<L> -> [m<L> ->] b<L>  with blocks `a` and `b`; its base template may
+# include the next level's leaf at one of five positions (three in its own text, one in the default body of `a`, one
+# in the child's override of `a`), and the definitions of `a` may be wrapped in capture (output twice) / if / for.
+# The model below is the whole of the property for these shapes: a block resolves to its most derived definition,
+# block.super to the next one, whatever tag the definition is written in and whatever else the same render includes.
+
+POSITIONS = ("none", "before", "between", "after", "in-default", "in-override")
+WRAPS = ("none", "capture2", "if", "for2")
+
+
+def _wrap(block: str, wrap: str, key: str) -> str:
+    if wrap == "capture2":
+        return "{% capture " + key + " %}" + block + "{% endcapture %}{{ " + key + " }}{{ " + key + " }}"
+    if wrap == "if":
+        return "{% if true %}" + block + "{% endif %}"
+    if wrap == "for2":
+        return "{% for q in (1..2) %}" + block + "{% endfor %}"
+    return block
+
+
+def composition_sources(levels: tuple, same_names: bool) -> tuple[dict[str, str], str]:
+    """levels[i] = (position of the next level, child mode, mid mode, base wrap, mid wrap). Returns (sources, model output)."""
+    sources: dict[str, str] = {}
+
+    def build(i: int) -> str:  # returns the model's rendering of level i and fills in its templates
+        pos, cmode, mmode, bwrap, mwrap = levels[i]
+        last = i == len(levels) - 1
+        site_src = "" if last or pos == "none" else "{% include 'c" + str(i + 1) + "' %}"
+        site_txt = "" if last or pos == "none" else build(i + 1)
+        na, nb = ("a", "b") if same_names else (f"a{i}", f"b{i}")
+
+        def at(p: str) -> tuple[str, str]:
+            return (site_src, site_txt) if pos == p else ("", "")
+
+        # base
+        d_src = f"[a{i}d" + at("in-default")[0] + "]"
+        d_txt = f"[a{i}d" + at("in-default")[1] + "]"
+        base = f"<{i}" + at("before")[0] + _wrap("{% block " + na + " %}" + d_src + "{% endblock %}", bwrap, f"k{i}") + at("between")[0]
+        base += "{% block " + nb + " %}[b" + str(i) + "d]{% endblock %}" + at("after")[0] + f"{i}>"
+        sources[f"b{i}"] = base
+        # mid (optional): overrides `a` only
+        parent = f"b{i}"
+        m_txt = None
+        if mmode != "absent":
+            m_body = f"[a{i}m]" + ("{{ block.super }}" if mmode == "super" else "")
+            sources[f"m{i}"] = "{% extends 'b" + str(i) + "' %}ignored" + _wrap("{% block " + na + " %}" + m_body + "{% endblock %}", mwrap, f"j{i}")
+            parent = f"m{i}"
+            m_txt = f"[a{i}m]" + (d_txt if mmode == "super" else "")
+        # child: overrides `a` (plain or with super) and `b` (always with super)
+        below = m_txt if m_txt is not None else d_txt
+        c_body_src = f"[a{i}c" + at("in-override")[0] + "]" + ("{{ block.super }}" if cmode == "super" else "")
+        c_txt = f"[a{i}c" + at("in-override")[1] + "]" + (below if cmode == "super" else "")
+        sources[f"c{i}"] = "{% extends '" + parent + "' %}{% block " + na + " %}" + c_body_src + "{% endblock %}{% block " + nb + " %}[b" + str(i) + "c]{{ block.super }}{% endblock %}"
+        times = 2 if bwrap in ("capture2", "for2") else 1
+        return f"<{i}" + at("before")[1] + c_txt * times + at("between")[1] + f"[b{i}c][b{i}d]" + at("after")[1] + f"{i}>"
+
+    return sources, build(0)
+
+
+def composition_space(tier: str) -> list[tuple[tuple, bool]]:
+    out: list[tuple[tuple, bool]] = []
+    plain_level = [(p, c, "absent", "none", "none") for p in POSITIONS[1:] for c in ("plain", "super")]
+    last_level = [("none", c, "absent", "none", "none") for c in ("plain", "super")]
+    # nesting through include, up to three chains deep, every position at every level
+    for depth in (2, 3) if tier == "quick" else (2, 3, 4):
+        for combo in itertools.product(plain_level, repeat=depth - 1):
+            for last in last_level:
+                for same in (True, False):
+                    out.append((combo + (last,), same))
+    # one or two levels with every wrapping of the definitions and an optional middle template
+    for c, m, bw, mw in itertools.product(("plain", "super"), ("absent", "plain", "super"), WRAPS, WRAPS):
+        if m == "absent" and mw != "none":
+            continue
+        out.append(((("none", c, m, bw, mw),), True))
+        for p in POSITIONS[1:]:
+            out.append((((p, c, m, bw, mw), ("none", "super", "super", "capture2", "none")), True))
+    return out
+
+
+def check_composition(levels: tuple, same: bool, res: ShardResult | None) -> list[tuple[str, Any, Any, Any]]:
+    out: list[tuple[str, Any, Any, Any]] = []
+    sources, want = composition_sources(levels, same)
+    for entry in ("sync", "async"):
+        env = Environment(loader=DictLoader(dict(sources)))
+        try:
+            with cpu_budget(10.0):
+                got = ("ok", env.get_template("c0").render()) if entry == "sync" else _async(_get_render_named(env, "c0"))
+        except TimeBudget:
+            got = ("timeout", None)
+        except LiquidError as e:
+            got = ("liquid", type(e).__name__ + ": " + str(e.message)[:60])
+        if res is not None:
+            res.evaluations += 1
+            res.traces_validated += 1
+            res.nontrivial.add(h64([levels, same, entry]))
+            res.outcomes.add(h64(len(levels)))
+        if got != ("ok", want):
+            wraps = "+".join(sorted({l[3] for l in levels} | {l[4] for l in levels}))
+            out.append((f"C08:composition:{'wrong-page' if got[0] == 'ok' else got[0]}:depth{len(levels)}:{wraps}", {"sources": sources, "entry": entry, "levels": [list(l) for l in levels], "same_names": same}, ("ok", want), got))
+    return out
+
+
 # ------------------------------------------------------------------ error configurations
 
 
@@ -504,6 +608,11 @@ def plan(tier: str, seed: int):
         shards.append(("nested", tier, lo, hi))
     subs["nested-chains"] = len(nested)
     total += len(nested)
+    comp = composition_space(tier)
+    for lo, hi in chunks(len(comp), 32):
+        shards.append(("comp", tier, lo, hi))
+    subs["compositions"] = len(comp)
+    total += len(comp)
     meta = {"space_size": total + len(errs), "subspaces": subs, "bounds": {"entries": list(ENTRIES), "modes": list(MODES)}}
     return shards, meta
 
@@ -525,6 +634,15 @@ def run_shard(shard) -> ShardResult:
         if lo == 0:
             ch = chain_at(per, depth, min(size - 1, 12345))
             res.samples.append({"chain": {f"t{k}": template_source(k, depth, ch[k][0], names, ch[k][1]) for k in range(depth)}, "model": model_render(ch, names)})
+    elif shard[0] == "comp":
+        _, tier, lo, hi = shard
+        comp = composition_space(tier)
+        for i in range(lo, hi):
+            res.cases += 1
+            for sig, case, exp, obs in check_composition(comp[i][0], comp[i][1], res):
+                res.violation(sig, {"part": "comp", "tier": tier, **case}, exp, obs, repro=_repro(case["sources"], case["entry"]).replace("'t0'", "'c0'"))
+            res.states.add(h64(["comp", i]))
+        res.transitions = res.evaluations
     elif shard[0] == "nested":
         _, tier, lo, hi = shard
         nested = nested_space(tier)
@@ -558,6 +676,11 @@ def replay(case: dict[str, Any]) -> list[dict[str, Any]]:
     res = ShardResult()
     if case["part"] == "nested":
         for sig, c, exp, obs in check_nested(tuple(case["names"]), case["index"], None):
+            if c["entry"] == case["entry"]:
+                res.violation(sig, case, exp, obs)
+        return res.violations
+    if case["part"] == "comp":
+        for sig, c, exp, obs in check_composition(tuple(tuple(l) for l in case["levels"]), case["same_names"], None):
             if c["entry"] == case["entry"]:
                 res.violation(sig, case, exp, obs)
         return res.violations
